@@ -160,7 +160,7 @@ Definition spec_ok (c : case) : bool :=
 
 Definition known_class (c : case) : Z :=
   match c with
-  | Case _ _ w ops => 0 * AutoInc.known_class_w w (flat_map to_ops ops)
+  | Case _ _ w ops => AutoInc.known_class_w w (flat_map to_ops ops)
   | Weird => 0
   end.
 
